@@ -150,7 +150,9 @@ class EndpointParameterProcessor:
         # Make a copy to modify if necessary
         updated_params = list(current_params)
 
-        for var in url_vars:
+        # url_vars is a set: iterate it in sorted order so that the positional order of the added parameters
+        # (and with it the generated signature) does not depend on the interpreter's string hashing
+        for var in sorted(url_vars):
             sanitized_var_name = NameSanitizer.sanitize_method_name(var)
             if sanitized_var_name not in param_details_map:
                 path_var_param_info = {
